@@ -140,7 +140,7 @@ func TestVerifC04(t *testing.T) {
 
 // C14: background maintenance never changes what readers see.
 func TestVerifC14(t *testing.T) {
-	k := Knobs{Name: "C14", Units: 140, RangeKeys: true, Snapshots: true, SnapAudit: true, LongIters: true, EFOS: true, Maint: true, MaintHeavy: true,
+	k := Knobs{Name: "C14", Units: 140, FlushGate: true, RangeKeys: true, Snapshots: true, SnapAudit: true, LongIters: true, EFOS: true, Maint: true, MaintHeavy: true,
 		Ingest: true, Excise: true, Ratchet: true, BigValues: true, ValueSep: true, AuditEvery: 12, NoAutoCompactionsPct: 30}
 	runDeck(t, "C14", "main", k, 120, 3000,
 		"Histories shaped to provoke each maintenance kind (flush, default/move/delete-only/elision-only/intra-L0 compactions, manual Compact, "+
@@ -151,7 +151,7 @@ func TestVerifC14(t *testing.T) {
 
 // C15: LSM level invariant holds after every operation.
 func TestVerifC15(t *testing.T) {
-	k := Knobs{Name: "C15", Units: 130, RangeKeys: true, Batches: true, Maint: true, Ingest: true, IngestHeavy: true, Excise: true, BigValues: true,
+	k := Knobs{Name: "C15", Units: 130, FlushGate: true, RangeKeys: true, Batches: true, Maint: true, Ingest: true, IngestHeavy: true, Excise: true, BigValues: true,
 		AuditEvery: 1, LightAudit: true, VersionWalk: true, NoAutoCompactionsPct: 20}
 	runDeck(t, "C15", "main", k, 200, 4000,
 		"Histories biased to ingests (landing in low levels, overlapping memtables, split ingests), excises and IngestAndExcise; after EVERY step "+
@@ -173,7 +173,7 @@ func TestVerifC36(t *testing.T) {
 
 // C37: eventually-file-only snapshots keep their protected view.
 func TestVerifC37(t *testing.T) {
-	k := Knobs{Name: "C37", Units: 130, RangeKeys: true, EFOS: true, EFOSHeavy: true, SnapAudit: true, Maint: true, Ingest: true, Excise: true,
+	k := Knobs{Name: "C37", Units: 130, FlushGate: true, RangeKeys: true, EFOS: true, EFOSHeavy: true, SnapAudit: true, Maint: true, Ingest: true, Excise: true,
 		AuditEvery: 6, NoAutoCompactionsPct: 20}
 	runDeck(t, "C37", "main", k, 150, 3000,
 		"Histories with 1-2 EFOS over 1-2 key ranges, writes to the protected ranges before and after creation, forced transitions (flush + "+
